@@ -425,22 +425,8 @@ func inv1Append(c *Ctx, m *memoAnchors) {
 			continue
 		}
 		construct := "ExpressionAtom.Evaluate / Append invalidates what was read from the array"
-		t, path := reach(fn, ci.(ssa.Instruction), func(in ssa.Instruction) bool {
-			r, ok := in.(*ssa.Return)
-			return ok && !returnsNonNilError(r)
-		}, func(in ssa.Instruction) bool {
-			call, ok := in.(ssa.CallInstruction)
-			if !ok || call.Common().StaticCallee() != resetFn || len(call.Common().Args) < 2 {
-				return false
-			}
-			f, base := fieldLoad(call.Common().Args[1])
-			if f == nil || f.Name() != "GrlText" {
-				return false
-			}
-			bf, bb := fieldLoad(base)
-			return bf == atomF && bb == recv
-		}, func(b *ssa.BasicBlock, si int) bool {
-			// follow only the edge on which the function name is "Append"
+		// follow only the edge on which the function name is "Append"
+		appendEdge := func(b *ssa.BasicBlock, si int) bool {
 			iff, isIf := b.Instrs[len(b.Instrs)-1].(*ssa.If)
 			if !isIf {
 				return true
@@ -462,7 +448,23 @@ func inv1Append(c *Ctx, m *memoAnchors) {
 				return si == 1
 			}
 			return true
-		})
+		}
+		successReturn := func(in ssa.Instruction) bool {
+			r, ok := in.(*ssa.Return)
+			return ok && !returnsNonNilError(r)
+		}
+		t, path := reach(fn, ci.(ssa.Instruction), successReturn, func(in ssa.Instruction) bool {
+			call, ok := in.(ssa.CallInstruction)
+			if !ok || call.Common().StaticCallee() != resetFn || len(call.Common().Args) < 2 {
+				return false
+			}
+			f, base := fieldLoad(call.Common().Args[1])
+			if f == nil || f.Name() != "GrlText" {
+				return false
+			}
+			bf, bb := fieldLoad(base)
+			return bf == atomF && bb == recv
+		}, appendEdge)
 		hasTest := false
 		for _, b := range fn.Blocks {
 			if iff, ok := b.Instrs[len(b.Instrs)-1].(*ssa.If); ok {
@@ -479,6 +481,86 @@ func inv1Append(c *Ctx, m *memoAnchors) {
 			c.OK(construct, p.InstrPos(ci), "on the Append path every success return follows memory.Reset(receiver text)")
 		} else {
 			c.Fail(construct, p.InstrPos(ci), "F.L.Append(x) changes the fact, but nothing that was read from F.L is forgotten: `when F.L.Len() < 3 then F.L.Append(7);` keeps firing on the remembered length until the cycle limit", pathString(p, path)...)
+		}
+		// the array may also have been read through another spelling (F.Lists[F.I] for F.Lists[0]): when the receiver is a
+		// variable below a fact, the alias reset of INV-1 follows as for an assignment to it
+		construct2 := "ExpressionAtom.Evaluate / Append also invalidates the other spellings of the array"
+		varF := p.Field("ast", "ExpressionAtom", "Variable")
+		parentF := p.Field("ast", "Variable", "Variable")
+		vnF := p.Field("ast", "Variable", "ValueNode")
+		isReceiverVar := func(v ssa.Value) bool {
+			f, base := fieldLoad(unspill(v))
+			if f != varF {
+				return false
+			}
+			bf, bb := fieldLoad(base)
+			return bf == atomF && bb == recv
+		}
+		why := ""
+		t2, path2 := reach(fn, ci.(ssa.Instruction), successReturn, func(in ssa.Instruction) bool {
+			call, ok := in.(ssa.CallInstruction)
+			if !ok {
+				return false
+			}
+			callee := call.Common().StaticCallee()
+			if callee == nil || !fnInModule(callee) {
+				return false
+			}
+			args := call.Common().Args
+			for i, a := range args {
+				if isReceiverVar(a) && i < len(callee.Params) && c.aliasResetWalkIn(callee, ssa.Value(callee.Params[i]), m) != nil {
+					return true
+				}
+			}
+			info, w := c.preciseAliasReset(callee, m)
+			if info == nil {
+				if strings.Contains(strings.ToLower(callee.Name()), "alias") {
+					why = fnName(callee) + ": " + w
+				}
+				return false
+			}
+			if info.varIdx >= len(args) || info.sizeIdx >= len(args) || !isReceiverVar(args[info.varIdx]) {
+				return false
+			}
+			// the size handed over is that of the receiver's container, which Append does not change
+			node := lengthOperand(args[info.sizeIdx])
+			if node == nil {
+				why = "the size handed to " + fnName(callee) + " is not the size of the receiver's container"
+				return false
+			}
+			nf, nb := fieldLoad(node)
+			pf, pb := fieldLoad(nb)
+			if nf != vnF || pf != parentF || !isReceiverVar(pb) {
+				why = "the size handed to " + fnName(callee) + " is not the size of the receiver's container"
+				return false
+			}
+			return true
+		}, func(b *ssa.BasicBlock, si int) bool {
+			if !appendEdge(b, si) {
+				return false
+			}
+			// a receiver that is no variable, or a top-level variable, has no other spelling
+			if iff, isIf := b.Instrs[len(b.Instrs)-1].(*ssa.If); isIf {
+				if kind, sNil, ok := condOn(iff.Cond, func(x ssa.Value) bool {
+					if isReceiverVar(x) {
+						return true
+					}
+					f, base := fieldLoad(x)
+					return f == parentF && isReceiverVar(base)
+				}); ok && kind == "nil" && si == sNil {
+					return false
+				}
+			}
+			return true
+		})
+		if t2 == nil && hasTest {
+			c.OK(construct2, p.InstrPos(ci), "on the Append path every success return with a receiver variable below a fact follows the alias reset for that variable")
+		} else {
+			msg := "F.Lists[0].Append(7) changes an array that F.Lists[F.I].Len() reads as well; only what is indexed under the receiver's own text is forgotten"
+			if why != "" {
+				msg += " [" + why + "]"
+			}
+			c.Fail(construct2, p.InstrPos(ci), msg, pathString(p, path2)...)
 		}
 	}
 }
